@@ -14,6 +14,8 @@ C02_Bound == Cardinality(Inflight) <= H.concMax
 C09_PauseBound == H.epoch = "pause" => H.pauseStarts <= H.concMax
 C17_Bounds == S.cur >= 0 /\ S.cur <= H.concMax /\ S.mcomp <= S.msucc + S.mfail
 C18_PoolBound == Cardinality({g \in PGs : S.pc[g] \notin {"unborn", "dead"}}) <= H.concMax + 1
+\* at rest a running worker keeps at least one idle pool worker
+C18_IdleAtRest == (~ENABLED Next /\ S.ws = "running") => Len(S.idle) >= 1
 \* a node is owned by exactly one party: idle list, cache, or a goroutine working on a job
 NodeOwnership == /\ \A i, k \in DOMAIN S.idle : i # k => S.idle[i] # S.idle[k]
                  /\ Range(S.idle) \cap S.cache = {}
